@@ -71,7 +71,31 @@ fn strategy(tier: Tier) -> BoxedStrategy<C12Case> {
         any::<u64>(),
         prop_oneof![2 => Just(0u32), 1 => Just(u32::MAX), 2 => any::<u32>()],
     )
-        .prop_map(|(version, pool, tree, choices, big_len, max_buf, strict, script, pair_seed, no_retry_mask)| C12Case { version, pool, tree, choices, big_len, max_buf, strict, script, pair_seed, no_retry_mask })
+        .prop_map(|(version, pool, tree, choices, big_len, max_buf, strict, mut script, pair_seed, no_retry_mask)| {
+            // one case in three gets the window-boundary piece: read up to the end of the first
+            // buffer window of /big, read across it (a refill, which the fault may hit after it has
+            // fetched some sectors), then - without repeating the failed read when the mask says
+            // so - go back into the first window and read there, and forward again
+            if pair_seed % 3 == 0 {
+                let w = max_buf.unwrap_or(1024).max(1024);
+                let at = (pair_seed >> 8) as usize % (script.len() + 1);
+                let piece = vec![
+                    Op::HOpen { slot: 0, p: PathSpec::Raw("/big".into()) },
+                    // exactly one window (a shorter read would leave bytes in the buffer and the
+                    // next read would not refill), then the read that has to refill
+                    Op::HReadExact { slot: 0, n: w },
+                    Op::HRead { slot: 0, n: 1000 },
+                    Op::HSeek { slot: 0, s: SeekSpec::StartRaw((pair_seed >> 16) % (w as u64 - 24)) },
+                    Op::HRead { slot: 0, n: 300 },
+                    Op::HSeek { slot: 0, s: SeekSpec::StartRaw(w as u64 - 10) },
+                    Op::HRead { slot: 0, n: 700 },
+                    Op::HSeek { slot: 0, s: SeekSpec::CurRaw(-200) },
+                    Op::HRead { slot: 0, n: 100 },
+                ];
+                script.splice(at..at, piece);
+            }
+            C12Case { version, pool, tree, choices, big_len, max_buf, strict, script, pair_seed, no_retry_mask }
+        })
         .boxed()
 }
 
@@ -183,7 +207,7 @@ pub fn def() -> PropDef {
     PropDef {
         id: "C12",
         level: "fault_enumeration",
-        rule: "workload = synthesized image (tree of up to 13 entries incl. a 3.5-14 KB stream /big, mini streams) + read-only script of 5-25 calls (open, walk, listings, entry, exists, whole-stream reads, handle read/read_exact/fill_buf+consume/seek/read_to_end with buffer sizes 1024/4096/default); the fault-free run counts N underlying read+seek calls; then one run per k in [0,N) with call k failing (twelve error kinds in rotation, among them Interrupted and WouldBlock - also on seeks -, with and without side effects of the failing call), plus all pairs for N<=60 or 120 sampled nearby pairs; after every Err the same call is retried up to 3 times. Oracle per call: Err only if a fault fired during that call, otherwise exactly the fault-free value; bytes delivered by any read must equal the true content at the position the handle reports. evaluations = number of executions; a non-trivial item = an execution in which a fault fired inside a stream read, that call returned Err and a later read on the same handle returned bytes; distinct = distinct (case, fault positions).",
+        rule: "workload = synthesized image (tree of up to 13 entries incl. a 3.5-14 KB stream /big, mini streams) + read-only script of 5-25 calls (one case in three with a window-boundary piece: read to the end of the first buffer window of /big, across it, back into it, forward again) (open, walk, listings, entry, exists, whole-stream reads, handle read/read_exact/fill_buf+consume/seek/read_to_end with buffer sizes 1024/4096/default); the fault-free run counts N underlying read+seek calls; then one run per k in [0,N) with call k failing (twelve error kinds in rotation, among them Interrupted and WouldBlock - also on seeks -, with and without side effects of the failing call), plus all pairs for N<=60 or 120 sampled nearby pairs; after every Err the same call is retried up to 3 times. Oracle per call: Err only if a fault fired during that call, otherwise exactly the fault-free value; bytes delivered by any read must equal the true content at the position the handle reports. evaluations = number of executions; a non-trivial item = an execution in which a fault fired inside a stream read, that call returned Err and a later read on the same handle returned bytes; distinct = distinct (case, fault positions).",
         assumptions: &["single faults are enumerated exhaustively per workload; workloads and pairs are sampled", "a failed read may leave the position anywhere: only data at the position the handle itself reports is judged"],
         quick_cases: 25,
         thorough_cases: 1500,
